@@ -183,6 +183,13 @@ func (g *Gen) heldBatch(v *Snapshot, a *Actor) (*basev1.Batch, *big.Rat) {
 		return nil, nil
 	}
 	bb := xs[g.R.Intn(len(xs))]
+	// a holding of astronomic size (hundreds of digits) is the interesting one to act on
+	for _, x := range xs {
+		if len(x.TradableAmount) > 300 && g.R.Chance(0.7) {
+			bb = x
+			break
+		}
+	}
 	t, _ := DecOrZero(bb.TradableAmount)
 	return v.BatchByKey(bb.BatchKey), t
 }
@@ -943,6 +950,13 @@ func init() {
 			p := g.precOf(v, b)
 			o := &markettypes.MsgSell_Order{BatchDenom: b.Denom, Quantity: g.creditAmount(truncTo(new(big.Rat).Quo(bal, RatI64(int64(n))), p), p, md("amount")),
 				AskPrice: coinP(g.askDenom(v, md("denom")), g.price()), DisableAutoRetire: g.R.Chance(0.5), Expiration: g.expiration(v, md("expiration"))}
+			if len(o.Quantity) < 40 && len(FmtDec(bal, p)) > 300 {
+				g.W.Probe("sell_of_astronomic_quantity_spelled_with_exponent")
+			}
+			if len(o.Quantity) < 40 && len(FmtDec(bal, p)) > 300 && o.Expiration == nil {
+				t := v.Time.Add(time.Duration(g.R.Range(1, 700000)) * time.Second)
+				o.Expiration = &t
+			}
 			if md("price") != ModeValid && g.R.Chance(0.3) {
 				o.AskPrice = coinP(g.askDenom(v, md("denom")), big.NewInt(0))
 			}
